@@ -55,12 +55,20 @@ func oracleC06(c *BCase) *ev.Failure {
 	if f := guard("C06", mt, "Unmarshal", func() { err = m.(fastMsg).Unmarshal(in) }); f != nil {
 		return f
 	}
+	split := singularMessageOccursTwice(mt.Desc, c.Bytes)
 	if err != nil {
-		return ev.Failf(sigOf("C06", "rejects-legal-encoding", mt), "Unmarshal(%.80x) [%s]: %v; the reference decodes it as %.200v", c.Bytes, c.Note, err, ref)
+		kind := "rejects-legal-encoding"
+		if split {
+			kind = "merge-semantics"
+		}
+		return ev.Failf(sigOf("C06", kind, mt), "Unmarshal(%.80x) [%s]: %v; the reference decodes it as %.200v", c.Bytes, c.Note, err, ref)
 	}
 	got := ToDynamic(m, mt.Desc)
 	if !proto.Equal(got, ref) {
 		kind := "value-differs"
+		if split {
+			kind = "merge-semantics"
+		}
 		if len(c.Pre) > 0 {
 			// does it depend on the previous content of the destination?
 			fresh := mt.New()
@@ -71,6 +79,49 @@ func oracleC06(c *BCase) *ev.Failure {
 		return ev.Failf(sigOf("C06", kind, mt), "Unmarshal(%.80x) [%s] gives %.200v, the reference decodes %.200v", c.Bytes, c.Note, got, ref)
 	}
 	return nil
+}
+
+// singularMessageOccursTwice: does some singular message field occur more than once at some level?
+func singularMessageOccursTwice(md protoreflect.MessageDescriptor, b []byte) bool {
+	fs, err := refwire.Walk(b)
+	if err != nil {
+		return false
+	}
+	seen := map[int]int{}
+	for _, f := range fs {
+		fd := md.Fields().ByNumber(protoreflect.FieldNumber(f.Num))
+		if fd == nil || f.WT != refwire.WTLen {
+			continue
+		}
+		var child protoreflect.MessageDescriptor
+		switch {
+		case fd.IsMap():
+			// entry: recurse into the value if it is a message
+			if vm := fd.MapValue().Message(); vm != nil {
+				es, err := refwire.Walk(b[f.PayloadStart:f.End])
+				if err == nil {
+					for _, e := range es {
+						if e.Num == 2 && e.WT == refwire.WTLen && singularMessageOccursTwice(vm, b[f.PayloadStart:f.End][e.PayloadStart:e.End]) {
+							return true
+						}
+					}
+				}
+			}
+			continue
+		case fd.Message() != nil:
+			child = fd.Message()
+			if !fd.IsList() {
+				seen[f.Num]++
+				if seen[f.Num] > 1 {
+					return true
+				}
+			}
+		}
+		if child != nil && singularMessageOccursTwice(child, b[f.PayloadStart:f.End]) {
+			return true
+		}
+	}
+	return false
 }
 
 // oracleC07: unknown fields are retained, counted by Size and re-emitted byte for byte.
@@ -231,9 +282,34 @@ func oracleC08(c *BCase) (f *ev.Failure, bothAccept bool) {
 		return f, true
 	}
 	if !proto.Equal(got, ref) {
-		return ev.Failf(sigOf("C08", "silent-disagreement", mt), "both decoders accept %.80x [%s] but the generated Unmarshal gives %.200v and the reference %.200v", c.Bytes, c.Note, got, ref), true
+		// which part disagrees: the known fields or only the retained unknown bytes?
+		kind := "silent-disagreement-known-fields"
+		g2, r2 := proto.Clone(got).ProtoReflect(), proto.Clone(ref).ProtoReflect()
+		stripUnknown(g2)
+		stripUnknown(r2)
+		if proto.Equal(g2.Interface(), r2.Interface()) {
+			kind = "silent-disagreement-unknown-bytes"
+		}
+		return ev.Failf(sigOf("C08", kind, mt), "both decoders accept %.80x [%s] but the generated Unmarshal gives %.200v (unknown %x) and the reference %.200v (unknown %x)", c.Bytes, c.Note, g2.Interface(), []byte(got.GetUnknown()), r2.Interface(), []byte(ref.GetUnknown())), true
 	}
 	return nil, true
+}
+
+func stripUnknown(m protoreflect.Message) {
+	m.SetUnknown(nil)
+	m.Range(func(fd protoreflect.FieldDescriptor, v protoreflect.Value) bool {
+		switch {
+		case fd.IsMap() && fd.MapValue().Message() != nil:
+			v.Map().Range(func(_ protoreflect.MapKey, mv protoreflect.Value) bool { stripUnknown(mv.Message()); return true })
+		case fd.IsList() && fd.Message() != nil:
+			for i := 0; i < v.List().Len(); i++ {
+				stripUnknown(v.List().Get(i).Message())
+			}
+		case fd.Message() != nil && !fd.IsMap() && !fd.IsList():
+			stripUnknown(v.Message())
+		}
+		return true
+	})
 }
 
 // mutateEncoding applies one of the C08 mutation operators.
@@ -359,6 +435,7 @@ func shardTypes(types []*MsgType) []*MsgType {
 func TestC06(t *testing.T) {
 	rec := ev.New("C06", ruleValues+"each value is re-encoded by a schema-aware encoder whose free choices are drawn from rapid: field order permutation, repeated scalars packed / unpacked / split into several runs / mixed, a singular scalar emitted twice with another earlier value, a singular message split into two partial occurrences, map entries with value before key / key omitted / value omitted / duplicate key, unknown fields interleaved at every level; the destination is pre-populated with an unrelated random value; oracle: generated Unmarshal succeeds and equals the reference decode of the same bytes; non-trivial = the encoding differs from the canonical one; distinct by (type, bytes, pre-population)")
 	defer rec.Write()
+	useRecorder(rec)
 	defer func() { t.Log(rec.Summary()); fmt.Print(rec.SurveyReport()) }()
 	mine := shardTypes(fmTypes(nil))
 	if len(mine) == 0 {
@@ -366,11 +443,15 @@ func TestC06(t *testing.T) {
 	}
 	ev.Rapid(t, ev.N(100000, 3000000), 6, func(rt *rapid.T) {
 		mt := rapid.SampledFrom(mine).Draw(rt, "type")
-		v, canonical := canon(genDyn(rt, mt.Desc, 3, genOpts{requiredProb: 10, maxMap: 3}))
+		v, canonical := canon(genDyn(rt, mt.Desc, 3, genOpts{runtime: mt.Info.Runtime, requiredProb: 10, maxMap: 3}))
 		var st varStats
-		c := &BCase{Type: mt.Key(), Bytes: encodeVariant(rt, v, allVariants, &st, 0)}
+		vo := allVariants
+		if excluding("singular-message-split-into-two-occurrences") {
+			vo.splitMsg = false
+		}
+		c := &BCase{Type: mt.Key(), Bytes: encodeVariant(rt, v, vo, &st, 0)}
 		if rapid.IntRange(0, 2).Draw(rt, "prepopulate") != 0 {
-			_, c.Pre = canon(genDyn(rt, mt.Desc, 2, genOpts{requiredProb: 10, maxMap: 2}))
+			_, c.Pre = canon(genDyn(rt, mt.Desc, 2, genOpts{runtime: mt.Info.Runtime, requiredProb: 10, maxMap: 2}))
 		}
 		c.Note = fmt.Sprintf("%+v", st)
 		rec.Eval(1)
@@ -395,6 +476,7 @@ func TestC06(t *testing.T) {
 func TestC07(t *testing.T) {
 	rec := ev.New("C07", ruleValues+"each value is encoded canonically with 1..6 well-formed unknown fields (numbers outside the schema incl. >= 2^26 and inside extension ranges but not declared, wire types 0/1/2/5) inserted at random positions at every nesting level; oracle: Unmarshal ok, Size()==len(Marshal()), and the reference decode of the re-marshaled bytes carries byte-identical unknown fields at every level and an equal known part; non-trivial = >= 1 unknown field; distinct by (type, bytes)")
 	defer rec.Write()
+	useRecorder(rec)
 	defer func() { t.Log(rec.Summary()); fmt.Print(rec.SurveyReport()) }()
 	mine := shardTypes(fmTypes(nil))
 	if len(mine) == 0 {
@@ -402,7 +484,7 @@ func TestC07(t *testing.T) {
 	}
 	ev.Rapid(t, ev.N(40000, 1000000), 7, func(rt *rapid.T) {
 		mt := rapid.SampledFrom(mine).Draw(rt, "type")
-		v, _ := canon(genDyn(rt, mt.Desc, 3, genOpts{requiredProb: 10, maxMap: 1}))
+		v, _ := canon(genDyn(rt, mt.Desc, 3, genOpts{runtime: mt.Info.Runtime, requiredProb: 10, maxMap: 1}))
 		var st varStats
 		c := &BCase{Type: mt.Key(), Bytes: encodeVariant(rt, v, varOpts{unknowns: true}, &st, 0)}
 		c.Note = fmt.Sprintf("unknown fields inserted: %d", st.unknown)
@@ -419,6 +501,7 @@ func TestC07(t *testing.T) {
 func TestC08(t *testing.T) {
 	rec := ev.New("C08", ruleValues+"valid encodings are mutated (truncate at an offset, overwrite a byte with {00,7f,80,ff,b^1,b^2,b^4,b^80}, inflate a length prefix to {remaining+1, 2^31-1, 2^31, 2^32, 2^40, 2^63, 2^64-1}, change a key's wire type incl. groups, append garbage, hostile length for an existing number, plain random bytes); the quick tier also truncates at every offset and overwrites every byte of the sweep encodings of each type; oracle: returns (no panic), bytes allocated <= 4 KiB + len*(576+2*S), and when both decoders accept the messages are equal; non-trivial = the input is not a valid canonical encoding; distinct by (type, bytes)")
 	defer rec.Write()
+	useRecorder(rec)
 	defer func() { t.Log(rec.Summary()); fmt.Print(rec.SurveyReport()) }()
 	rec.Assume("allocation metered with runtime/metrics, confirmed by an exact MemStats bracket on a fresh message before it is reported")
 	mine := shardTypes(fmTypes(nil))
@@ -438,7 +521,7 @@ func TestC08(t *testing.T) {
 	}
 	// systematic: every truncation and every single-byte overwrite of a few sweep encodings per type
 	for _, mt := range mine {
-		vals := sweepValues(mt.Desc)
+		vals := sweepValues(mt.Desc, mt.Info.Runtime)
 		step := len(vals)/6 + 1
 		for i := 0; i < len(vals); i += step {
 			_, b := canon(vals[i])
@@ -459,7 +542,7 @@ func TestC08(t *testing.T) {
 	}
 	ev.Rapid(t, ev.N(150000, 6000000), 8, func(rt *rapid.T) {
 		mt := rapid.SampledFrom(mine).Draw(rt, "type")
-		_, b := canon(genDyn(rt, mt.Desc, 3, genOpts{requiredProb: 9, maxMap: 2}))
+		_, b := canon(genDyn(rt, mt.Desc, 3, genOpts{runtime: mt.Info.Runtime, requiredProb: 9, maxMap: 2}))
 		var note string
 		b, note = mutateEncoding(rt, b)
 		if rapid.IntRange(0, 3).Draw(rt, "twice") == 0 {
@@ -477,6 +560,7 @@ func TestC08(t *testing.T) {
 func TestC10(t *testing.T) {
 	rec := ev.New("C10", ruleValues+"only types generated WITHOUT enableunsafedecode; values rich in variable-length data (string, bytes, repeated bytes, map values, oneof bytes, nested messages, unknown fields); metamorphic oracle: decode, deep-copy snapshot through reflection, overwrite the caller's buffer with another pattern and re-use it for a second decode: the first message must still equal its snapshot; the lazyproto half of the property is checked by the lazy engine's C14 hand-out snapshots; non-trivial = the decoded value holds >= 1 string/bytes/message/map/unknown item; distinct by (type, bytes)")
 	defer rec.Write()
+	useRecorder(rec)
 	defer func() { t.Log(rec.Summary()); fmt.Print(rec.SurveyReport()) }()
 	mine := shardTypes(fmTypes(func(mt *MsgType) bool { return !mt.Info.Unsafe }))
 	if len(mine) == 0 {
@@ -484,7 +568,7 @@ func TestC10(t *testing.T) {
 	}
 	ev.Rapid(t, ev.N(40000, 1000000), 10, func(rt *rapid.T) {
 		mt := rapid.SampledFrom(mine).Draw(rt, "type")
-		v, _ := canon(genDyn(rt, mt.Desc, 3, genOpts{requiredProb: 10, maxMap: 3}))
+		v, _ := canon(genDyn(rt, mt.Desc, 3, genOpts{runtime: mt.Info.Runtime, requiredProb: 10, maxMap: 3}))
 		var st varStats
 		c := &BCase{Type: mt.Key(), Bytes: encodeVariant(rt, v, varOpts{unknowns: true}, &st, 0)}
 		f, nt := oracleC10(c)
